@@ -60,11 +60,12 @@ type c10Scenario struct {
 	Row  c10Row `json:"row"`
 	I    int    `json:"i"` // vendored parameter set (prover's key / modulus)
 	J    int    `json:"j"` // vendored parameter set (verifier's ring-Pedersen parameters)
+	Part int    `json:"part"` // witness class lz: the wire part (1-based) that must come out shortened; 0 = any
 	Seed int64  `json:"seed"`
 }
 
 func (s c10Scenario) key() string {
-	return fmt.Sprintf("%s|w=%s|sess=%s|%s|%d,%d", s.Row.Sys, s.Row.WClass, s.Row.Sess, s.Row.Curve, s.I, s.J)
+	return fmt.Sprintf("%s|w=%s|sess=%s|%s|%d,%d|part%d", s.Row.Sys, s.Row.WClass, s.Row.Sess, s.Row.Curve, s.I, s.J, s.Part)
 }
 
 type c10Result struct {
@@ -179,10 +180,32 @@ func c10Lens(parts [][]byte, r *c10Result) {
 }
 
 
-// c10HasShortPart: some part that is a residue (of a modulus of nomBytes[i] bytes) has an encoding shorter than the modulus:
+// c10ResidueParts: the wire parts (1-based) of a system that are residues of a modulus (their encoding can lose leading zeros)
+func c10ResidueParts(sys string) []int {
+	switch sys {
+	case "sch":
+		return []int{1, 2, 3}
+	case "schv":
+		return []int{1, 2, 3, 4}
+	case "fac":
+		return []int{1, 2, 3, 4, 5}
+	case "alice":
+		return []int{1, 2, 3, 4}
+	case "bob":
+		return []int{1, 2, 3, 4, 5, 6}
+	case "bobwc":
+		return []int{1, 2, 3, 4, 5, 6, 11, 12}
+	}
+	return nil
+}
+
+// c10HasShortPart: some part (want > 0: that part) that is a residue (of a modulus of nomBytes[i] bytes) has an encoding shorter than the modulus:
 // big.Int.Bytes() dropped leading zero bytes. nom 0 = not a residue.
-func c10HasShortPart(parts [][]byte, nom []int) bool {
+func c10HasShortPart(want int, parts [][]byte, nom []int) bool {
 	for i, p := range parts {
+		if want > 0 && i != want-1 {
+			continue
+		}
 		if i < len(nom) && nom[i] > 0 && len(p) < nom[i] {
 			return true
 		}
@@ -272,10 +295,10 @@ func c10Run(sc c10Scenario, keys []eckg.LocalPartySaveData) (res c10Result) {
 			var pf *schnorr.ZKProof
 			var err error
 			var pan string
-			res.Info["prover_runs"] = c10Grind(grind, 3000, func() bool {
+			res.Info["prover_runs"] = c10Grind(grind, 6000, func() bool {
 				pan = pcCall(func() { pf, err = schnorr.NewZKProof(sess, x, X, lib) })
 				return pan == "" && err == nil && pf != nil
-			}, func() bool { return c10HasShortPart([][]byte{pf.Alpha.X().Bytes(), pf.Alpha.Y().Bytes(), pf.T.Bytes()}, []int{fl, fl, c10Len(q)}) })
+			}, func() bool { return c10HasShortPart(sc.Part, [][]byte{pf.Alpha.X().Bytes(), pf.Alpha.Y().Bytes(), pf.T.Bytes()}, []int{fl, fl, c10Len(q)}) })
 			if pan != "" || err != nil || pf == nil {
 				proverFail(err, pan)
 				return
@@ -343,11 +366,11 @@ func c10Run(sc c10Scenario, keys []eckg.LocalPartySaveData) (res c10Result) {
 		var pf *schnorr.ZKVProof
 		var err error
 		var pan string
-		res.Info["prover_runs"] = c10Grind(grind, 3000, func() bool {
+		res.Info["prover_runs"] = c10Grind(grind, 6000, func() bool {
 			pan = pcCall(func() { pf, err = schnorr.NewZKVProof(sess, V, R, s, l, lib) })
 			return pan == "" && err == nil && pf != nil
 		}, func() bool {
-			return c10HasShortPart([][]byte{pf.Alpha.X().Bytes(), pf.Alpha.Y().Bytes(), pf.T.Bytes(), pf.U.Bytes()}, []int{fl, fl, c10Len(q), c10Len(q)})
+			return c10HasShortPart(sc.Part, [][]byte{pf.Alpha.X().Bytes(), pf.Alpha.Y().Bytes(), pf.T.Bytes(), pf.U.Bytes()}, []int{fl, fl, c10Len(q), c10Len(q)})
 		})
 		if pan != "" || err != nil || pf == nil {
 			proverFail(err, pan)
@@ -518,10 +541,10 @@ func c10Run(sc c10Scenario, keys []eckg.LocalPartySaveData) (res c10Result) {
 		var err error
 		var pan string
 		nc := c10Len(B.NTildei)
-		res.Info["prover_runs"] = c10Grind(row.Sess == "long", 600, func() bool {
+		res.Info["prover_runs"] = c10Grind(row.Sess == "long", 2500, func() bool {
 			pan = pcCall(func() { pf, err = facproof.NewProof(sess, cv.Ec, sk.N, B.NTildei, B.H1i, B.H2i, sk.P, sk.Q, lib) })
 			return pan == "" && err == nil && pf != nil
-		}, func() bool { bz := pf.Bytes(); return c10HasShortPart(bz[:], []int{nc, nc, nc, nc, nc}) })
+		}, func() bool { bz := pf.Bytes(); return c10HasShortPart(sc.Part, bz[:], []int{nc, nc, nc, nc, nc}) })
 		if pan != "" || err != nil || pf == nil {
 			proverFail(err, pan)
 			return
@@ -554,7 +577,7 @@ func c10Run(sc c10Scenario, keys []eckg.LocalPartySaveData) (res c10Result) {
 		var err error
 		var pan string
 		nt, nn := c10Len(B.NTildei), c10Len(pk.N)
-		res.Info["prover_runs"] = c10Grind(grind, 600, func() bool {
+		res.Info["prover_runs"] = c10Grind(grind, 2500, func() bool {
 			pan = pcCall(func() {
 				c, r, err = pk.EncryptAndReturnRandomness(lib, m)
 				if err == nil {
@@ -562,7 +585,7 @@ func c10Run(sc c10Scenario, keys []eckg.LocalPartySaveData) (res c10Result) {
 				}
 			})
 			return pan == "" && err == nil && pf != nil
-		}, func() bool { bz := pf.Bytes(); return c10HasShortPart(bz[:], []int{nt, 2 * nn, nt, nn}) })
+		}, func() bool { bz := pf.Bytes(); return c10HasShortPart(sc.Part, bz[:], []int{nt, 2 * nn, nt, nn}) })
 		if pan != "" || err != nil || pf == nil {
 			proverFail(err, pan)
 			return
@@ -636,10 +659,10 @@ func c10Run(sc c10Scenario, keys []eckg.LocalPartySaveData) (res c10Result) {
 		if row.Sys == "bob" {
 			var pf *mta.ProofBob
 			var pan string
-			res.Info["prover_runs"] = c10Grind(grind, 400, func() bool {
+			res.Info["prover_runs"] = c10Grind(grind, 2500, func() bool {
 				pan = pcCall(func() { pf, err = mta.ProveBob(sess, cv.Ec, pk, NT, h1, h2, c1, c2, x, y, r, lib) })
 				return pan == "" && err == nil && pf != nil
-			}, func() bool { bz := pf.Bytes(); return c10HasShortPart(bz[:], bobNom) })
+			}, func() bool { bz := pf.Bytes(); return c10HasShortPart(sc.Part, bz[:], bobNom) })
 			if pan != "" || err != nil || pf == nil {
 				proverFail(err, pan)
 				return
@@ -666,10 +689,10 @@ func c10Run(sc c10Scenario, keys []eckg.LocalPartySaveData) (res c10Result) {
 		}
 		var pw *mta.ProofBobWC
 		var pan2 string
-		res.Info["prover_runs"] = c10Grind(grind, 400, func() bool {
+		res.Info["prover_runs"] = c10Grind(grind, 2500, func() bool {
 			pan2 = pcCall(func() { pw, err = mta.ProveBobWC(sess, cv.Ec, pk, NT, h1, h2, c1, c2, x, y, r, X, lib) })
 			return pan2 == "" && err == nil && pw != nil
-		}, func() bool { bz := pw.Bytes(); return c10HasShortPart(bz[:], append(append([]int{}, bobNom...), 0, 0, 0, 0, 32, 32)) })
+		}, func() bool { bz := pw.Bytes(); return c10HasShortPart(sc.Part, bz[:], append(append([]int{}, bobNom...), 0, 0, 0, 0, 32, 32)) })
 		if pan2 != "" || err != nil || pw == nil {
 			proverFail(err, pan2)
 			return
@@ -781,6 +804,22 @@ func c10Plan(ctx *core.Ctx, rows []c10Row) []c10Scenario {
 		for _, r := range rows {
 			if !seen[r.Sys+"|s|"+r.Sess] || !seen[r.Sys+"|c|"+r.Curve] {
 				pick(r)
+			}
+		}
+	}
+	if ctx.Thorough() {
+		// the leading-zero class once per residue part: that part must come out shortened
+		done := map[string]bool{}
+		for _, r := range rows {
+			lz := r.WClass == "lz" || (r.Sys == "fac" && r.Sess == "long")
+			if !lz || done[r.Sys+r.Curve] {
+				continue
+			}
+			done[r.Sys+r.Curve] = true
+			for _, part := range c10ResidueParts(r.Sys) {
+				p := pairs[(part*3+int(ctx.Seed))%len(pairs)]
+				add(r, p[0], p[1])
+				scs[len(scs)-1].Part = part
 			}
 		}
 	}
